@@ -76,7 +76,9 @@ pub fn run(thorough: bool) {
     let mut total_cmp = 0u64;
     let mut cfg_stats = vec![];
     let mut outcomes: BTreeSet<String> = BTreeSet::new();
-    for sc in [sc, sc2] {
+    let a = arr_docs();
+    let sc3 = single_scenario("single-first-commit", vec![a[0].clone(), a[3].clone(), a[4].clone(), a[8].clone()], if thorough { 5 } else { 4 }, &[Op::Reopen(0), Op::Unstage(0), Op::ObjPut(0, 1)]);
+    for sc in [sc, sc2, sc3] {
         // pass 1: every distinct state of the scenario (representative histories)
         let ex = Explorer { sc: sc.clone(), probes: vec![], limits: Limits { pool_size: 1, max_states: if thorough { 60_000 } else { 4_000 }, ..Default::default() } };
         let r = ex.run(true);
